@@ -333,6 +333,9 @@ func (r *transport) handleCacheHit(
 		// A request max-age that the response exceeds asks for validation (§5.2.1.1).
 		reqMaxAge, hasReqMaxAge := ccReq.MaxAge()
 		if staleFor >= 0 && staleFor < swr && (!hasReqMaxAge || (reqMaxAge > 0 && age <= reqMaxAge)) {
+			if isRespNoCacheQualified {
+				stripFields(stored.Data.Header, respNoCacheFieldsSeq)
+			}
 			return r.handleStaleWhileRevalidate(req, stored, urlKey, freshness, ccReq)
 		}
 	}
@@ -363,9 +366,7 @@ func (r *transport) serveFromCache(
 ) (*http.Response, error) {
 	if noCacheQualified {
 		//Qualified no-cache: may serve from cache with fields stripped
-		for field := range noCacheFieldsSeq {
-			stored.Data.Header.Del(field)
-		}
+		stripFields(stored.Data.Header, noCacheFieldsSeq)
 	}
 	internal.SetAgeHeader(stored.Data, r.clock, freshness.Age)
 	internal.CacheStatusHit.ApplyTo(stored.Data.Header)
@@ -376,6 +377,12 @@ func (r *transport) serveFromCache(
 		}
 	}))
 	return stored.Data, nil
+}
+
+func stripFields(header http.Header, fields iter.Seq[string]) {
+	for field := range fields {
+		header.Del(field)
+	}
 }
 
 // handleStaleWhileRevalidate serves a stale cached response immediately and triggers
@@ -396,6 +403,7 @@ func (r *transport) handleStaleWhileRevalidate(
 	// Open a discussion at github.com/bartventer/httpcache/issues if your use case requires
 	// guaranteed completion.
 	go r.backgroundRevalidate(req2, stored, urlKey, freshness, ccReq)
+	internal.SetAgeHeader(stored.Data, r.clock, freshness.Age)
 	internal.CacheStatusStale.ApplyTo(stored.Data.Header)
 	r.logger.LogCacheStaleRevalidate(req, urlKey, internal.MiscFunc(func() internal.Misc {
 		return internal.Misc{
